@@ -8,14 +8,22 @@
 (*                                sendBulkToStores, shard.Bulk             *)
 (*   proxy/bulk/write_status.go : bulkWriteStatus{coldWritten,             *)
 (*                                hotStoresWS, writeStoresWS}              *)
-(*   network/circuitbreaker     : Execute (rejects without calling when    *)
-(*                                the circuit is open)                     *)
-(* for ONE bulk.  The environment (stores, network, breaker) chooses the   *)
+(*   network/circuitbreaker     : Execute (returns an error without calling*)
+(*                                when the circuit is open OR when more    *)
+(*                                than MaxConcurrent executions - other    *)
+(*                                bulks - are inside this shard's breaker) *)
+(* for ONE bulk.  The environment (stores, network, breaker, the other     *)
+(* bulks that share the breakers, the caller) chooses the                  *)
 (* outcome of every replica call:                                          *)
 (*   "ok"   the store accepted the payload and the client saw success      *)
 (*   "err"  the store did not accept, the client saw an error/timeout      *)
 (*   "lost" the store accepted, the client saw an error/timeout            *)
-(* and whether a shard's breaker rejects the call (BreakerReject).         *)
+(* and whether a shard's breaker rejects the call (BreakerReject, for one  *)
+(* of the reasons RejectKinds), and when the request context ends (CtxDone:*)
+(* the deadline of Ingestor.ProcessDocuments passes or the caller goes     *)
+(* away).  A replica call begun on a context that is done fails without    *)
+(* reaching the store (gRPC stub); StoreDocuments itself never looks at    *)
+(* the context: a failed attempt stays a failed attempt.                   *)
 (* The random shard order of sendBulkToStores (util.IdxShuffle) is the     *)
 (* free choice of s in ShardCall/BreakerReject.                            *)
 (*                                                                         *)
@@ -31,6 +39,11 @@ CONSTANTS MaxS, MaxR,   \* index domains (shards / replicas per tier are <= thes
           Strict,       \* TRUE: shard.Bulk calls exactly the not-yet-written replicas (the code);
                         \* FALSE: it may additionally re-send to written ones (generalisation)
           Breaker,      \* TRUE: circuit breakers may reject
+          RejectKinds,  \* why Execute returns without running the callback: "open" (circuit open),
+                        \* "limit" (cep21 ConcurrencyLimitReached: > MaxConcurrent bulks inside this breaker)
+          CancelSet,    \* initial values of cancelAt: < 0 the request context never ends; 0 it may end at any
+                        \* moment; k >= 1 it ends exactly after k-1 shard calls (biases -simulate; needs KeepSeen)
+          CtxKinds,     \* how the context ends: "cancel" (caller), "deadline" (consts.BulkTimeout)
           KeepSeen,     \* TRUE: record the per-host outcome sequences (case emission)
           BudgetSet     \* {0}: unlimited faults; otherwise the fault budget is drawn from this set
                         \* (biases -simulate towards few faults); see Budgeted
@@ -45,8 +58,11 @@ VARIABLES topo,         \* the topology of this run
           result,       \* "none" | "ok" (StoreDocuments returned nil) | "err"
           seen,         \* history: outcomes answered by each host, in call order (if KeepSeen)
           rejs,         \* history: breakers that rejected, per epoch = number of shard calls so far
-          budget        \* remaining faults (if Budgeted)
-vars == <<topo, attempt, tier, tried, written, accepted, coldWritten, result, seen, rejs, budget>>
+          budget,       \* remaining faults (if Budgeted)
+          ctxDone,      \* ctx.Err() # nil for the ctx given to StoreDocuments
+          cancelAt,     \* plan / history: epoch (= Len(rejs)) at which the context ended, see CancelSet
+          ckind         \* history: how it ended (if KeepSeen)
+vars == <<topo, attempt, tier, tried, written, accepted, coldWritten, result, seen, rejs, budget, ctxDone, cancelAt, ckind>>
 
 Tiers == {"hot", "cold"}
 Outcomes == {"ok", "err", "lost"}
@@ -65,7 +81,12 @@ ToposHot33 == TopoSet(3, 3, 0, 0)                   \* hot tier only, up to 3x3
 ToposHot33Cold11 == TopoSet(3, 3, 1, 1)
 ToposAll == TopoSet(3, 3, 3, 3)                     \* 90 topologies of the property's quantifier
 ToposTiny == {tp \in TopoSet(2, 2, 1, 2) : tp.hs * tp.hr + tp.cs * tp.cr <= 4}
+ToposMini == {tp \in TopoSet(2, 2, 1, 2) : tp.hs * tp.hr + tp.cs * tp.cr <= 3}
 ToposOne == {[hs |-> 2, hr |-> 2, cs |-> 1, cr |-> 2]}
+
+CancelNever == {-1}
+CancelFree == {0}
+CancelSim == {-4, -3, -2, -1, 1, 2, 3, 4, 5, 7}        \* 4 of 10 simulated runs keep their context
 
 Blank == [t \in Tiers |-> [s \in AllS |-> [r \in AllR |-> FALSE]]]
 NoSeen == [t \in Tiers |-> [s \in AllS |-> [r \in AllR |-> <<>>]]]
@@ -75,7 +96,20 @@ InitFor(tp) ==
   /\ topo = tp /\ attempt = 1 /\ tier = "cold" /\ tried = {}
   /\ written = Blank /\ accepted = Blank /\ coldWritten = FALSE /\ result = "none"
   /\ seen = NoSeen /\ rejs = <<{}>>
-Init == (\E tp \in Topos : InitFor(tp)) /\ budget \in BudgetSet
+  /\ ctxDone = FALSE /\ ckind = "-"
+Init == (\E tp \in Topos : InitFor(tp)) /\ budget \in BudgetSet /\ cancelAt \in CancelSet
+
+\* a planned end of the context is due: it happens before the next shard call
+Due == cancelAt >= 1 /\ ~ctxDone /\ cancelAt = Len(rejs)
+
+\* The context given to StoreDocuments ends (any moment up to the return of the function; nobody in the
+\* write path reacts to it, only calls begun later fail).
+CtxDone(k) ==
+  /\ ~ctxDone /\ ctxDone' = TRUE
+  /\ \/ cancelAt = 0 /\ cancelAt' = (IF KeepSeen THEN Len(rejs) ELSE 0)
+     \/ Due /\ UNCHANGED cancelAt
+  /\ ckind' = (IF KeepSeen THEN k ELSE ckind)
+  /\ UNCHANGED <<topo, attempt, tier, tried, written, accepted, coldWritten, result, seen, rejs, budget>>
 
 Todo(t, s) == {r \in Reps(t) : ~written[t][s][r]}
 
@@ -83,13 +117,13 @@ Todo(t, s) == {r \in Reps(t) : ~written[t][s][r]}
 ColdSkip ==
   /\ result = "none" /\ tier = "cold" /\ coldWritten
   /\ tier' = "hot"
-  /\ UNCHANGED <<topo, attempt, tried, written, accepted, coldWritten, result, seen, rejs, budget>>
+  /\ UNCHANGED <<topo, attempt, tried, written, accepted, coldWritten, result, seen, rejs, budget, ctxDone, cancelAt, ckind>>
 
 \* sendBulkToStores: `if len(shards) == 0 { return nil }` for the long-term tier; storeDocs then sets coldWritten
 TierEmpty ==
   /\ result = "none" /\ tier = "cold" /\ ~coldWritten /\ NS("cold") = 0
   /\ coldWritten' = TRUE /\ tier' = "hot"
-  /\ UNCHANGED <<topo, attempt, tried, written, accepted, result, seen, rejs, budget>>
+  /\ UNCHANGED <<topo, attempt, tried, written, accepted, result, seen, rejs, budget, ctxDone, cancelAt, ckind>>
 
 \* One iteration of the loop in sendBulkToStores whose shard.Bulk gets through the breaker:
 \* shard.Bulk sends to `called` in parallel; o[r] is the outcome of the call to replica r.
@@ -104,8 +138,12 @@ ShardCallG(s, called, o) ==
      /\ (t = "cold" => ~coldWritten)
      /\ s \in Shards(t) \ tried
      /\ Todo(t, s) \subseteq called /\ called \subseteq Reps(t)
-     /\ (Budgeted => Cardinality(fails) <= budget)
-     /\ budget' = (IF Budgeted THEN budget - Cardinality(fails) ELSE budget)
+     /\ ~Due
+     \* sendBulkToHost on a context that is done: the stub returns the context's error, nothing is sent
+     /\ (ctxDone => \A r \in called : o[r] = "err")
+     \* (failures forced by the ended context are not charged to the fault budget)
+     /\ ((Budgeted /\ ~ctxDone) => Cardinality(fails) <= budget)
+     /\ budget' = (IF Budgeted /\ ~ctxDone THEN budget - Cardinality(fails) ELSE budget)
      /\ written' = [written EXCEPT ![t][s] = [r \in AllR |-> @[r] \/ (r \in called /\ o[r] = "ok")]]
      /\ accepted' = [accepted EXCEPT ![t][s] = [r \in AllR |-> @[r] \/ (r \in called /\ o[r] \in {"ok", "lost"})]]
      /\ seen' = (IF KeepSeen
@@ -117,7 +155,7 @@ ShardCallG(s, called, o) ==
                THEN (coldWritten' = TRUE /\ tier' = "hot" /\ tried' = {} /\ UNCHANGED <<attempt, result>>)
                ELSE (result' = "ok" /\ UNCHANGED <<attempt, tier, tried, coldWritten>>))
          ELSE (tried' = tried \cup {s} /\ UNCHANGED <<attempt, tier, coldWritten, result>>))
-     /\ UNCHANGED topo
+     /\ UNCHANGED <<topo, ctxDone, cancelAt, ckind>>
 
 \* canonical outcome "ok" for replicas that are not called keeps the choice of o unique per behaviour
 ShardCall(s) ==
@@ -127,16 +165,18 @@ ShardCall(s) ==
          /\ \A r \in AllR \ called : o[r] = "ok"
          /\ ShardCallG(s, called, o)
 
-\* breaker.Execute returns circuit-open without running the callback: nothing is sent, nothing is marked
-BreakerReject(s) ==
-  /\ Breaker /\ result = "none"
+\* breaker.Execute returns an error of the circuit (open / concurrency limit reached) without running the
+\* callback: nothing is sent, nothing is marked, the shard has failed.  CircuitBreaker.Execute:
+\* `if err != nil { return fmt.Errorf(...) }` whatever the reason k.
+BreakerReject(s, k) ==
+  /\ Breaker /\ result = "none" /\ k \in RejectKinds
   /\ (tier = "cold" => ~coldWritten)
   /\ s \in Shards(tier) \ tried
   /\ (Budgeted => budget >= 1)
   /\ budget' = (IF Budgeted THEN budget - 1 ELSE budget)
   /\ tried' = tried \cup {s}
-  /\ rejs' = (IF KeepSeen THEN [rejs EXCEPT ![Len(rejs)] = @ \cup {<<tier, s>>}] ELSE rejs)
-  /\ UNCHANGED <<topo, attempt, tier, written, accepted, coldWritten, result, seen>>
+  /\ rejs' = (IF KeepSeen THEN [rejs EXCEPT ![Len(rejs)] = @ \cup {<<tier, s, k>>}] ELSE rejs)
+  /\ UNCHANGED <<topo, attempt, tier, written, accepted, coldWritten, result, seen, ctxDone, cancelAt, ckind>>
 
 \* sendBulkToStores ran out of shards => storeDocs returns the error => StoreDocuments:
 \*   n == BulkMaxTries-1 => return error, otherwise sleep and start the next attempt (storeDocs from the top)
@@ -146,10 +186,18 @@ AttemptFailed ==
   /\ (IF attempt >= MaxTries
       THEN (result' = "err" /\ UNCHANGED <<attempt, tier, tried>>)
       ELSE (attempt' = attempt + 1 /\ tier' = "cold" /\ tried' = {} /\ UNCHANGED result))
-  /\ UNCHANGED <<topo, written, accepted, coldWritten, seen, rejs, budget>>
+  /\ UNCHANGED <<topo, written, accepted, coldWritten, seen, rejs, budget, ctxDone, cancelAt, ckind>>
 
-Next == \/ ColdSkip \/ TierEmpty \/ AttemptFailed
-        \/ \E s \in AllS : ShardCall(s) \/ BreakerReject(s)
+\* Generalisation (Strict = FALSE) only: once the context is done StoreDocuments MAY stop retrying and report
+\* the failure at once.  The code does not (it runs all MaxTries attempts); the property does not forbid it.
+GiveUp ==
+  /\ ~Strict /\ ctxDone /\ result = "none"
+  /\ result' = "err"
+  /\ UNCHANGED <<topo, attempt, tier, tried, written, accepted, coldWritten, seen, rejs, budget, ctxDone, cancelAt, ckind>>
+
+Next == \/ ColdSkip \/ TierEmpty \/ AttemptFailed \/ GiveUp
+        \/ \E k \in CtxKinds : CtxDone(k)
+        \/ \E s \in AllS : ShardCall(s) \/ \E k \in RejectKinds : BreakerReject(s, k)
 Spec == Init /\ [][Next]_vars
 FairSpec == Spec /\ WF_vars(Next)
 
@@ -162,9 +210,11 @@ WrittenBitSound == \A t \in Tiers : \A s \in AllS : \A r \in AllR : written[t][s
 ColdFlagSound == (coldWritten /\ topo.cs > 0) => Full("cold")
 AtMostMaxTries == /\ attempt <= MaxTries
                   /\ \A t \in Tiers : \A s \in AllS : \A r \in AllR : Len(seen[t][s][r]) <= MaxTries
-FailOnlyAfterAllTries == result = "err" => attempt = MaxTries
+\* "reported as failed" only after the bounded retries - or, at the earliest, once the request context is done
+FailOnlyAfterAllTries == result = "err" => (attempt = MaxTries \/ ctxDone)
 TypeOK == /\ topo \in Topos /\ attempt \in 1..MaxTries /\ tier \in Tiers
           /\ tried \subseteq Shards(tier) /\ coldWritten \in BOOLEAN /\ result \in {"none", "ok", "err"}
+          /\ ctxDone \in BOOLEAN /\ cancelAt \in Int /\ ckind \in CtxKinds \cup {"-"}
           /\ \A t \in Tiers : \A s \in AllS : \A r \in AllR :
                (written[t][s][r] \/ accepted[t][s][r]) => (s \in Shards(t) /\ r \in Reps(t))
 EventuallyAnswers == <>(result # "none")
@@ -176,12 +226,13 @@ EventuallyAnswers == <>(result # "none")
 ColdWB == \A s \in AllS : \A r \in AllR : written["cold"][s][r] => accepted["cold"][s][r]
 ColdInRange == \A s \in AllS : \A r \in AllR :
                  (written["cold"][s][r] \/ accepted["cold"][s][r]) => (s \in Shards("cold") /\ r \in Reps("cold"))
-View == <<topo, attempt, tier, tried, coldWritten, result, written["hot"], accepted["hot"],
+View == <<topo, attempt, tier, tried, coldWritten, result, ctxDone, cancelAt, written["hot"], accepted["hot"],
           IF coldWritten THEN <<Full("cold"), ColdWB, ColdInRange>> ELSE <<written["cold"], accepted["cold"]>> >>
 
 \* ---------------------------------------------------------------- emission (B3/B1): one script per finished run
 \* script = what every host answered to its k-th call + which breakers rejected in which epoch
 Emit == (result # "none") =>
           PrintT(<<"CASE", ToJson([topo |-> topo, hot |-> seen["hot"], cold |-> seen["cold"],
-                                   rejs |-> rejs, res |-> result, att |-> attempt])>>)
+                                   rejs |-> rejs, res |-> result, att |-> attempt,
+                                   cancel |-> (IF ctxDone THEN cancelAt ELSE 0), ckind |-> ckind])>>)
 =============================================================================
